@@ -1952,4 +1952,37 @@ theorem planeInitialize_len (c : Cfg) (br : BR) (w : World) (exp : Exp) :
         case panic => left; exact hlen3
         all_goals exact tail
 
+theorem matchCount_batch (br : BR) (b : Int) (w : World) :
+    matchCount { br with currentBatch := b } w = matchCount br w := rfl
+
+
+/-- one call keeps every owned Deployment's replicas under a bound that covers the step's target -/
+theorem call_replicas_bound (br : BR) (op : Op) (c : Cfg) (w : World) (exp : Exp) (B : Int)
+    (hnd : namesNodup w = true) (hB0 : 0 ≤ B)
+    (htgt : ∀ t, target br w = some t → t ≤ B)
+    (h0 : ∀ d ∈ w.deps, d.owner = .this → ∀ r, d.replicas = some r → r ≤ B) :
+    ∀ d ∈ (call br op c w exp).w.deps, d.owner = .this → ∀ r, d.replicas = some r → r ≤ B := by
+  have hndw := (namesNodup_iff w).mp hnd
+  obtain ⟨id, f, ids, hf, hwhich, hids, hworld⟩ := call_shape br op c w exp
+  have hp : Pres f := which_pres hwhich
+  have hafter := shape_after hf hworld
+  intro d' hd' hown r hr
+  rcases mem_after hf hndw hafter hd' with ⟨d, hd, heff, _⟩ | ⟨_, ⟨_, _, st, _, hnew, _⟩, _, _, _⟩
+  · have hrep : d'.replicas = (if d.name = id then f d else d).replicas := by
+      rcases eff_some heff with h | ⟨_, h⟩ <;> rw [h]
+    have hown' : d.owner = .this := by rw [← (eff_pres hp heff).1]; exact hown
+    rw [hrep] at hr
+    rcases hwhich with rfl | ⟨_, _, rfl⟩ | ⟨_, _, rfl⟩ | ⟨_, cd, t, cur, st, rfl, rfl, _, _, _, htg, _, _, _⟩
+    · exact h0 d hd hown' r (by simpa using hr)
+    · exact h0 d hd hown' r (by split at hr <;> exact hr)
+    · exact h0 d hd hown' r (by split at hr <;> exact hr)
+    · split at hr
+      · simp only [setReplicas, Option.some.injEq] at hr
+        rw [← hr]; exact htgt t htg
+      · exact h0 d hd hown' r hr
+  · obtain ⟨tp, _, rfl⟩ := newCanary_some hnew
+    simp only [Option.some.injEq] at hr
+    omega
+
+
 end RV.CtlCanary
